@@ -24,7 +24,44 @@ pub struct Controller {
 #[derive(Serialize, Deserialize, Debug)]
 pub struct Job {
     selected_handlers: u8,
+    #[serde(with = "path_as_bytes")]
     input_path: PathBuf,
+}
+
+/// Paths are arbitrary byte strings. Send them as such, so that a file
+/// below a directory with a non-UTF-8 name is processed like in serial mode.
+mod path_as_bytes {
+    use serde::{de, Deserializer, Serializer};
+    use std::ffi::OsString;
+    use std::fmt;
+    use std::os::unix::ffi::{OsStrExt, OsStringExt};
+    use std::path::{Path, PathBuf};
+
+    pub fn serialize<S: Serializer>(path: &Path, serializer: S) -> Result<S::Ok, S::Error> {
+        serializer.serialize_bytes(path.as_os_str().as_bytes())
+    }
+
+    struct PathVisitor;
+
+    impl de::Visitor<'_> for PathVisitor {
+        type Value = PathBuf;
+
+        fn expecting(&self, formatter: &mut fmt::Formatter) -> fmt::Result {
+            formatter.write_str("a path as a byte string")
+        }
+
+        fn visit_bytes<E: de::Error>(self, v: &[u8]) -> Result<PathBuf, E> {
+            Ok(PathBuf::from(OsString::from_vec(v.to_vec())))
+        }
+
+        fn visit_str<E: de::Error>(self, v: &str) -> Result<PathBuf, E> {
+            Ok(PathBuf::from(v))
+        }
+    }
+
+    pub fn deserialize<'de, D: Deserializer<'de>>(deserializer: D) -> Result<PathBuf, D::Error> {
+        deserializer.deserialize_bytes(PathVisitor)
+    }
 }
 
 impl Controller {
